@@ -12,4 +12,5 @@ INVARIANT Complete
 INVARIANT NoException
 INVARIANT MoreFlag
 INVARIANT Individual
+PROPERTY ChainTerminates
 CHECK_DEADLOCK FALSE
